@@ -201,10 +201,10 @@ PROPS = ('INVARIANT TypeOK\nINVARIANT Attached\nINVARIANT NothingSurvives\nPROPE
          'PROPERTY FreshGame\nPROPERTY VarEvent\n')
 # exhaustive runs, partitioned by action family: (label, configs, acts, MaxOps quick/thorough, MaxAdv, MaxGames, MaxEB)
 MC_RUNS = [
-    ('skeleton+score+counter', [dict(bpg=2, maxp=3)], ['modereq', 'addplayer', 'score', 'lb', 'eb', 'endgame'], (4, 5), 0, 1, 1),
-    ('two-games', [dict(bpg=2, maxp=2)], ['modereq', 'addplayer', 'score', 'mode', 'endgame'], (4, 5), 0, 2, 0),
-    ('shots+achievement+vars', [dict(bpg=2, maxp=2), dict(bpg=3, maxp=1)], ['addplayer', 'shot', 'ach', 'var'], (4, 5), 0, 1, 0),
-    ('gm2+timer', [dict(bpg=2, maxp=2)], ['addplayer', 'mode', 'timer', 'eb'], (5, 6), (3, 4), 1, 1),
+    ('skeleton+score+counter', [dict(bpg=2, maxp=3)], ['modereq', 'addplayer', 'score', 'lb', 'eb', 'endgame'], (4, 6), 0, 1, 1),
+    ('two-games', [dict(bpg=2, maxp=2)], ['modereq', 'addplayer', 'score', 'mode', 'endgame'], (4, 7), 0, 2, 0),
+    ('shots+achievement+vars', [dict(bpg=2, maxp=2), dict(bpg=3, maxp=1)], ['addplayer', 'shot', 'ach', 'var'], (4, 6), 0, 1, 0),
+    ('gm2+timer', [dict(bpg=2, maxp=2)], ['addplayer', 'mode', 'timer', 'eb'], (5, 7), (3, 4), 1, 1),
 ]
 
 # schedule generation profiles: (action families, ops per ball, share of the schedules)
